@@ -82,10 +82,14 @@ class _Scopes(ast.NodeVisitor):
         self.generic_visit(node)
 
     def _target(self, t, value):
+        if isinstance(t, (ast.Tuple, ast.List)):
+            for e in t.elts:
+                self._target(e, value)
+            return
         if isinstance(t, ast.Attribute):
             if t.attr == 'raiseExceptions':
                 self.rows.append(('mode-write', self.where(), self.context()))
-            if t.attr in ('_selectors', '_selectorlevel', '_level') and self.rel.endswith('serialize.py'):
+            if t.attr in ('_selectors', '_selectorlevel', '_level', '_insheet') and self.rel.endswith('serialize.py'):
                 self.rows.append(('serializer-state-write', self.where(), '%s %s' % (t.attr, self.context())))
             if t.attr in ('_pushed',):
                 self.rows.append(('pushed-write', self.where(), '-'))
@@ -175,6 +179,23 @@ def _parse_setting(tree):
             else:
                 shape.append('other:' + type(st).__name__)
     rows.append(('parse-setting-shape', 'cssutils/parse.py:CSSParser.__parseSetting', ' | '.join(shape) or 'missing'))
+    # per-object state: every assignment to an attribute of `self` in any method of CSSParser. The model's parser
+    # objects are written by `__init__` and `setFetcher` only (no entry point may keep anything from a call)
+    for name, fn in fns.items():
+        for st in ast.walk(fn):
+            targets = []
+            if isinstance(st, ast.Assign):
+                targets = st.targets
+            elif isinstance(st, (ast.AugAssign, ast.AnnAssign)):
+                targets = [st.target]
+            for t in targets:
+                for sub in ast.walk(t):
+                    if isinstance(sub, ast.Attribute) and isinstance(sub.value, ast.Name) and sub.value.id == 'self':
+                        rows.append(('parser-attr-write', 'cssutils/parse.py:CSSParser.' + name, sub.attr))
+        for st in ast.walk(fn):
+            if isinstance(st, ast.Call) and isinstance(st.func, ast.Name) and st.func.id in ('setattr', 'delattr') \
+                    and st.args and isinstance(st.args[0], ast.Name) and st.args[0].id == 'self':
+                rows.append(('parser-attr-write', 'cssutils/parse.py:CSSParser.' + name, 'setattr'))
     init = fns.get('__init__')
     if init is not None:
         w = [ast.unparse(st) for st in ast.walk(init) if isinstance(st, ast.Assign)
